@@ -262,6 +262,25 @@ fn os(s: &str) -> Option<OsString> {
     Some(OsString::from(s))
 }
 
+/// the text handed to the formatter in pieces of at most three bytes (an escape sequence assembled by `write!`)
+struct Pieces<'a>(&'a str);
+
+impl std::fmt::Display for Pieces<'_> {
+    fn fmt(&self, f: &mut std::fmt::Formatter<'_>) -> std::fmt::Result {
+        let s = self.0;
+        let mut i = 0;
+        while i < s.len() {
+            let mut j = (i + 3).min(s.len());
+            while !s.is_char_boundary(j) {
+                j += 1;
+            }
+            f.write_str(&s[i..j])?;
+            i = j;
+        }
+        Ok(())
+    }
+}
+
 struct FailAfter<'a>(&'a str);
 
 impl std::fmt::Display for FailAfter<'_> {
@@ -310,7 +329,14 @@ fn adapted_mode(log: &mut impl Write, seed: u64, n: u64) {
             }] += 1;
             // a value whose Display emits its text and then reports an error: what was delivered before the error stays
             // (only where the stream itself survives such a value: std's write_fmt panics on it in pass-through mode)
-            let (got, want) = if decided == ColorChoice::Never && i % 3 == 0 {
+            let (got, want) = if got == want && i % 3 == 1 {
+                // the same text arriving in small fragments
+                let pc = Pieces(&text);
+                let g2 = anstream::_macros::to_adapted_string(&pc, &sink);
+                let mut r2 = AutoStream::new(Vec::<u8>::new(), decided);
+                let _ = write!(r2, "{pc}");
+                (g2, String::from_utf8_lossy(&r2.into_inner()).into_owned())
+            } else if decided == ColorChoice::Never && i % 3 == 0 {
                 let fa = FailAfter(&text);
                 let g2 = anstream::_macros::to_adapted_string(&fa, &sink);
                 let mut r2 = AutoStream::new(Vec::<u8>::new(), decided);
